@@ -707,7 +707,9 @@ pub fn layouts(seed: u64, count: u64, outdir: &str, big: bool, with_full_difat: 
                 writeln!(impl_out, "{} | {}", observed, catch(|| tail(&real)).unwrap_or_else(|_| "-".into())).unwrap();
                 if let Some(exp) = model.apply(&line) {
                     if exp != observed {
-                        out.violations.push(format!("layout {} (seed {}): after opening {}: step {}: {} gave {} but the abstract tree model says {}", k, seed, path, step, short(&line), short(&observed), short(&exp)));
+                        // the markers layout.rs leaves in free sectors (c0 c1 c2 ...) and free mini sectors (b7 ...)
+                        let stale = if observed.contains("c0c1c2c3c4c5c6c7c8c9") || observed.contains("b7b7b7b7b7b7b7b7b7b7") { " [STALE-FREE-SPACE: the bytes returned contain the marker of the file's free space]" } else { "" };
+                        out.violations.push(format!("layout {} (seed {}): after opening {}: step {}: {} gave {} but the abstract tree model says {}{}", k, seed, path, step, short(&line), short(&observed), short(&exp), stale));
                         bad = true;
                         break;
                     }
